@@ -26,6 +26,12 @@ Round 4: definedness (`check_defined`: coverage distributions with exactly zero 
      exact Hardy-Weinberg mixture against the code's F = 0 matrix and, exactly, against the hypergeometric rows); and
      `check_part_cache`: after every case that runs the calling model, every entry of `Numerics._part_cache` is deep-compared
      with an independent enumeration (cached partition lists must never be modified by their users).
+Round 5: `check_simtable` — ONE call of simulate_GATK_multisample_calling with every random draw recorded (`DrawRecorder` wraps the module
+     globals `ss`, `rng`, `simulate_reads`, `subsample_genotypes_1D`): L3 from the recorded draws (probability table made of multiples of
+     1/#loci, reads = f(genotype, depth, draw), depths in the support, entry 0 holds at least the loci without two alternative reads),
+     K `simtable` (the model's `simTable` on the same draws, exactly), `simcount` (loci per aggregate partition = int(nsim p)), `simfit`;
+     the proved entry-wise deep-coverage bound ((1 + D) + sum nsub) 2^-D |model|_1 replaces the heuristic of `deep_check` where its
+     hypotheses hold and is evaluated where informative (`deep_l1_check`, K `deepentry`).
 History: every single-function case starts from freshly reloaded LowPass module state, and `check_history` builds several
      low-pass functions in ONE process with the same population names (same sizes/options but different coverage; same
      coverage but different Fx / sizes / threshold / nsim / model), evaluates them in shuffled orders and repeatedly, and
@@ -753,7 +759,14 @@ def deep_check(chk, ctx, case, model, out, inp, tag=''):
             rdata = np.moveaxis(np.tensordot(rdata, P, axes=([ax], [0])), -1, ax)
         rmask = np.zeros(rdata.shape, dtype=bool); rmask[tuple([0] * d)] = True; rmask[tuple(nsub)] = True
         what = 'the inbreeding-aware projection matrices'
+    # C18_deep_coverage_entrywise (proved): ((1 + D) + sum_p nsub_p) 2^-D * |model|_1 when nothing on the support is simulated and the
+    # coverage sums to exactly 1; never more than the older heuristic sum_p (D + 2 + nsub_p) 2^-D, which is kept for the other cases
     tol = sum((Dmin + 2 + p['nsub']) for p in pops) * 2.0 ** (-Dmin) * tot_in + RTOL * scale
+    De, eb = deep_entry_formula(pops)
+    if De >= 2 and case['thr'] >= float((1 + De) * Fraction(1, 2 ** De)) and mdata[tuple([0] * d)] == 0 \
+            and all(sum(Fraction(v) for v in p['cov']) == 1 for p in pops):
+        tol = min(tol, float(eb) * float(np.abs(mdata).sum()) + RTOL * scale)
+        chk.stat('deep_entry_proved_bound')
     um = ~rmask & ~omask
     err = float(np.max(np.abs(odata[um] - rdata[um]))) if um.any() else 0.0
     if err > tol:
@@ -771,6 +784,11 @@ def deep_bound_formula(pops):
     eps = (1 + max(p['nseq'] for p in pops) * D) * two
     delta = 4 * max(p['nsub'] for p in pops) * two
     return D, eps + len(pops) * delta, eps, delta
+
+def deep_entry_formula(pops):
+    """C18_deep_coverage_entrywise's constant, written out independently of the model: ((1 + D) + sum_p nsub_p) 2^-D"""
+    D = min(min(i for i, v in enumerate(p['cov']) if v != 0) for p in pops)
+    return D, (1 + D + sum(p['nsub'] for p in pops)) * Fraction(1, 2 ** D)
 
 def deep_l1_check(chk, ctx, case, model, out, inp, tag=''):
     """the proved bound (C18_deep_coverage / _analytic) on the real code: sum_j |corrected_j - projected_j| <= deepBound * sum_i |model_i|
@@ -801,6 +819,16 @@ def deep_l1_check(chk, ctx, case, model, out, inp, tag=''):
     if tot > 0 and float(bound) * tot > 100 * RTOL * scale * odata.size:
         chk.stat('deep_l1_informative')
         chk.stats['deep_l1_max_ratio_informative'] = max(chk.stats.get('deep_l1_max_ratio_informative', 0.0), l1 / (float(bound) * tot))   # observed / proved, where round-off is negligible
+    # the entry-wise theorem (C18_deep_coverage_entrywise_analytic; its threshold condition (1 + D) 2^-D <= thr is implied by the l1 one)
+    De, eb = deep_entry_formula(pops)
+    linf = float(np.max(np.abs(odata - ref))) if odata.size else 0.0
+    elim = float(eb) * tot + RTOL * scale
+    if tot > 0 and float(eb) * tot > 100 * RTOL * scale:
+        chk.stat('deep_entry_informative')
+        chk.stats['deep_entry_max_ratio_informative'] = max(chk.stats.get('deep_entry_max_ratio_informative', 0.0), linf / (float(eb) * tot))
+    if not np.isfinite(linf) or linf > elim:
+        chk.fail('make_low_pass_func:deep-coverage:entry', '%severy individual has depth >= %d, sim_threshold=%r: an entry of the corrected model is %.3g away from the model '
+                 'projected with projection_matrix, more than the proved entry-wise bound ((1 + D) + sum nsub) 2^-D * total = %.3g' % (tag, D, case['thr'], linf, elim), inp)
     if not np.isfinite(l1) or l1 > lim:
         chk.fail('make_low_pass_func:deep-coverage:l1', '%severy individual has depth >= %d, sim_threshold=%r: the corrected model is at l1 distance %.3g from the model '
                  'projected with projection_matrix, more than the proved bound ((1 + max nseq*D) + %d*4*max nsub) 2^-D * total = %.3g' % (tag, D, case['thr'], l1, d, lim), inp)
@@ -817,6 +845,11 @@ def deep_l1_check(chk, ctx, case, model, out, inp, tag=''):
             chk.k_ok('projected') if ok else chk.k_bad('projected', inp, ref, o[:300], err)
         else:
             chk.k_bad('projected', inp, ref, o[:300], None)
+        o = ctx['driver'].ask('lp_deepentry %s' % popstr)
+        if o.startswith('ok ') and np.allclose(parse_floats(o[3:]), [float(De), float(eb)], rtol=1e-12, atol=0):
+            chk.k_ok('deepentry')
+        else:
+            chk.k_bad('deepentry', inp, [float(De), float(eb)], o, None)
         o = ctx['driver'].ask('lp_deepbound %s' % popstr)
         mine = [float(D), float(bound), float(eps), float(delta)]
         if o.startswith('ok ') and np.allclose(parse_floats(o[3:]), mine, rtol=1e-12, atol=0):
@@ -1636,24 +1669,19 @@ def run(chk, ctx):
     chk.unproved = [
         'round-off: agreement of the float code with the exact model/oracle is numerical (1e-9 of the array scale); for 0 < F < 2^-18 the pinned '
         'log-gamma route of part_inbreeding_probability is ill-conditioned and is judged by the exact oracle only',
-        'continuity as F -> 0+ is proved (C18_F_continuity: Filter.Tendsto of every partition probability of the F > 0 branch to the F = 0 branch; '
-        'C18_F_continuity_matrices_partial: calling-error matrix, no-call probabilities, and the F > 0 branch of projection_matrix tends to the '
-        'Hardy-Weinberg mixture of individual-subsampling rows); NOT proved: that this mixture equals the hypergeometric row of the F = 0 branch '
-        '(double counting over haplotype configurations) - checked exactly inside the model for n_sequenced <= 12/18 (K projmix0) and numerically '
-        'on the code (|PM(F) - PM(0)| <= 4*nseq*F + 1e-9)',
-        'deep coverage: proved for any number of populations as an l1 bound (C18_deep_coverage: |corrected - projection|_1 <= ((1 + max nseq D) + '
-        'd*4*max nsub) 2^-D |model|_1 + deviation of the simulated tables; exact identity C18_deep_exact in the limit) and evaluated on the real code; '
-        'the entry-wise bound sum_p (D + 2 + nsub_p) 2^-D total of the older oracle is still checked numerically',
-        'the simulated regime (simulate_GATK_multisample_calling) is not modelled: its outputs enter the model as parameters (total <= 1 for the '
-        'total-mass theorem, l1 distance sigma from the projection row for the deep-coverage theorem), checked at run time with fixed rng seeds '
-        '(closure) and statistically (deep coverage, 6 sigma)',
+        'simulated regime: simulate_GATK_multisample_calling is modelled as a deterministic function of its recorded random draws (simTable; K: exact '
+        'agreement on the recorded draws of the real run) and proved to return a probability table for any draws (C18_sim_table_stochastic, '
+        'C18_total_le_simulated); NOT proved: anything about the distribution of the draws (that depths follow the coverage distribution, that '
+        'rng.permuted is uniform) and hence the deviation sigma of a simulated table from the projection row in the deep-coverage theorems - checked '
+        'statistically (fixed seeds, 6 sigma) on the real code; a table is 0/0 when nsim * probability < 1 for every genotype partition (tiny nsim)',
         'numpy glue of lowpass_func (masked-array dot treats masked entries as 0, swapaxes, outer product of the 1-D no-call vectors, '
         'axis-by-axis application vs the product kernel) is tied by correspondence, not by translation',
         'the effect table (C18_cached_not_mutated) is a may-alias analysis of the source text of LowPass.py / the cached_part users of Numerics.py; '
         'mutation through other modules or through numpy views of python lists is outside it (the L3 cache check covers the calls exercised)',
         'row 0 of the coverage array is assumed to be arange(D+1) (as compute_cov_dist produces)']
     chk.assumptions += ['coverage distributions have positive mass on some depth >= 1 (otherwise prob_het_err is 0/0 in the code) and sum to <= 1',
-                        'sim_outputs of the simulated regime are parameters of the model (their closure properties are checked on the real code)']
+                        'in the assembly ops (lp_corrected) the implementation\'s simulated tables are handed to the model; the tables themselves are tied to the model by lp_simtable on recorded draws',
+                        'nsim is large enough for at least one genotype partition to receive a locus (int(nsim * probability) >= 1)']
     # ---- partitions, exhaustive
     for n in range(0, 11):
         for x in range(0, 2 * n + 2):
